@@ -219,6 +219,10 @@ Definition bp_recv (mx : nat) (s : st) (b : nat) (d : nat) : st :=
           if refusing x then
             let x2 := if negb (cl x) && is_fin m then with_rf x1 false else x1 in
             put x2 (set_rq s (rq s ++ bounce1 mx m))
+          else if is_fin m then
+            (* a chaser that finds the worker not refusing its partition is bounced like the messages it chases,
+               never buffered as a message (repo commit 1a6c550) *)
+            put x1 (set_rq s (rq s ++ bounce1 mx m))
           else match d with
                | 0 => put (with_buf x1 (buf x1 ++ [m])) s
                | 1 => put (with_wt x1 (Some m)) s
